@@ -109,6 +109,34 @@ pub enum SlashableOffence {
     NotarFallbackAndFinalize(ValidatorIndex, Slot),
 }
 
+/// Verification hook: one entry of the ordered finalization log kept by [`PoolImpl`].
+#[cfg(feature = "verif-hooks")]
+#[derive(Clone, Debug, PartialEq, Eq)]
+pub enum VerifFinalization {
+    /// Block was directly finalized (fast-final, or final + notar).
+    Finalized(BlockId),
+    /// Block was finalized through a finalized descendant.
+    ImplicitlyFinalized(BlockId),
+    /// Slot was skipped as a consequence of a finalization.
+    ImplicitlySkipped(Slot),
+}
+
+/// Verification hook: read-only snapshot of [`PoolImpl`] state.
+#[cfg(feature = "verif-hooks")]
+#[derive(Clone, Debug)]
+pub struct VerifPoolSnapshot {
+    /// Total number of finalization log entries recorded so far.
+    pub log_len: usize,
+    /// Finalization log entries starting at the requested index, in processing order.
+    pub log: Vec<VerifFinalization>,
+    /// First slot whose state has not been pruned.
+    pub first_unpruned_slot: Slot,
+    /// Slots for which per-slot state is currently retained.
+    pub retained_slots: Vec<Slot>,
+    /// All certificates currently held.
+    pub certs: Vec<Cert>,
+}
+
 /// Interface for the Pool.
 ///
 /// This is only used for mocking of [`PoolImpl`].
@@ -122,6 +150,9 @@ pub trait Pool {
     fn finalized_slot(&self) -> Slot;
     fn parents_ready(&self, slot: Slot) -> &[BlockId];
     fn wait_for_parent_ready(&mut self, slot: Slot) -> Either<BlockId, oneshot::Receiver<BlockId>>;
+    /// Verification hook: snapshot with finalization log entries from index `log_from`.
+    #[cfg(feature = "verif-hooks")]
+    fn verif_snapshot(&self, log_from: usize) -> VerifPoolSnapshot;
 }
 
 /// Shared, lock-protected handle to a [`Pool`] trait object.
@@ -148,6 +179,9 @@ pub struct PoolImpl {
     votor_event_channel: Sender<PoolEvent>,
     /// Channel for sending repair requests to the repair loop.
     repair_channel: Sender<BlockId>,
+    /// Verification hook: ordered log of processed finalization events.
+    #[cfg(feature = "verif-hooks")]
+    verif_log: Vec<VerifFinalization>,
 }
 
 impl PoolImpl {
@@ -167,6 +201,23 @@ impl PoolImpl {
             epoch_info,
             votor_event_channel,
             repair_channel,
+            #[cfg(feature = "verif-hooks")]
+            verif_log: Vec::new(),
+        }
+    }
+
+    /// Verification hook: appends a finalization event to the ordered log.
+    #[cfg(feature = "verif-hooks")]
+    fn verif_record(&mut self, event: &FinalizationEvent) {
+        if let Some(b) = &event.finalized {
+            self.verif_log.push(VerifFinalization::Finalized(b.clone()));
+        }
+        for b in &event.implicitly_finalized {
+            self.verif_log
+                .push(VerifFinalization::ImplicitlyFinalized(b.clone()));
+        }
+        for s in &event.implicitly_skipped {
+            self.verif_log.push(VerifFinalization::ImplicitlySkipped(*s));
         }
     }
 
@@ -389,6 +440,8 @@ impl PoolImpl {
     }
 
     async fn handle_finalization(&mut self, event: FinalizationEvent) {
+        #[cfg(feature = "verif-hooks")]
+        self.verif_record(&event);
         let new_parents_ready = self.parent_ready_tracker.handle_finalization(event);
         self.send_parent_ready_events(new_parents_ready).await;
         self.prune();
@@ -518,6 +571,8 @@ impl Pool for PoolImpl {
         let finalization_event = self
             .finality_tracker
             .add_parent(block_id.clone(), parent_id.clone());
+        #[cfg(feature = "verif-hooks")]
+        self.verif_record(&finalization_event);
         let new_parents_ready = self
             .parent_ready_tracker
             .handle_finalization(finalization_event);
@@ -581,6 +636,17 @@ impl Pool for PoolImpl {
 
     fn wait_for_parent_ready(&mut self, slot: Slot) -> Either<BlockId, oneshot::Receiver<BlockId>> {
         self.parent_ready_tracker.wait_for_parent_ready(slot)
+    }
+
+    #[cfg(feature = "verif-hooks")]
+    fn verif_snapshot(&self, log_from: usize) -> VerifPoolSnapshot {
+        VerifPoolSnapshot {
+            log_len: self.verif_log.len(),
+            log: self.verif_log.iter().skip(log_from).cloned().collect(),
+            first_unpruned_slot: self.first_unpruned_slot(),
+            retained_slots: self.slot_states.keys().copied().collect(),
+            certs: self.get_certs(..),
+        }
     }
 }
 
